@@ -429,7 +429,11 @@ type unsupportedErr struct{ msg string }
 
 func (st *State) unsupported(f string, a ...any) {
 	if os.Getenv("GOVC_DEBUG") != "" {
-		fmt.Fprintf(os.Stderr, "UNSUPPORTED: %s\n  path: %v\n", fmt.Sprintf(f, a...), st.trace)
+		var fns []string
+		for _, fr := range st.frames {
+			fns = append(fns, fr.fn.String())
+		}
+		fmt.Fprintf(os.Stderr, "UNSUPPORTED: %s\n  path: %v\n  frames: %v\n", fmt.Sprintf(f, a...), st.trace, fns)
 		debug.PrintStack()
 	}
 	panic(unsupportedErr{fmt.Sprintf(f, a...)})
